@@ -15,10 +15,16 @@ PROP = {
 }
 
 TEXT = {
-    "text": "Rendering is modelled as an interaction tree over the caller's writer; the sequence of underlying Write calls of every generated "
-            "template is compared with the real FRender on every run, and every single-fault plan (exhaustive over the call index) is executed "
-            "on the real code with a model-independent oracle. The Lean theorems about the tree (StopsOnFailure) are added by the main line.",
-    "design_ref": "DESIGN.md 6 C20",
-    "note": NOTE,
-    "technique": "Lean 4 proof + model/implementation correspondence + exhaustive fault injection on the implementation",
+    "text": ("Rendering is an interaction tree over the caller's writer. Theorem frender_stops: for every template, environment, "
+              'configuration and layout, at each Write on the success path a failed write ends the render at once with an error '
+              "whose cause is the writer's failure; frender_faulty: a writer failing at its k-th call (accepting any part) makes "
+              'FRender return that error after exactly k+1 calls; frender_faulty_prefix: the bytes accepted are a prefix of the '
+              "fault-free output; capture bodies never reach the caller's writer (capture_infallible); no panic by C01. Tie: the "
+              '`faults` stream compares the sequence of underlying Write calls with the real FRender and executes every '
+              'single-fault plan (exhaustive over the call index, none/partial acceptance, fail-once/fail-forever) on the real '
+              'code.'),
+    "design_ref": 'DESIGN.md 6 C20',
+    "note": NOTE + ('A writer that reports a short write without an error is outside the property and the model.'),
+    "technique": ('Lean 4 proof (inductive Stops predicate on interaction trees, by induction over the render tree) + '
+              'model/implementation correspondence of Write-call sequences + exhaustive fault injection on the implementation'),
 }
